@@ -4,7 +4,7 @@ usage: tools/benign.py PROP N [NAME] ; inputs in /tmp/wt/PROP.out/refactorN.diff
 import json, os, shutil, subprocess, sys, time
 ENV = dict(os.environ, GOFLAGS="-mod=mod", GOPROXY="off", GOSUMDB="off")
 def sh(cmd, cwd=None, env=ENV):
-    p = subprocess.run(cmd, shell=True, cwd=cwd, env=env, stdout=subprocess.PIPE, stderr=subprocess.STDOUT, text=True)
+    p = subprocess.run(cmd, shell=True, cwd=cwd, env=env, stdout=subprocess.PIPE, stderr=subprocess.STDOUT, text=True, errors="replace")
     return p.returncode, p.stdout
 prop, n = sys.argv[1], sys.argv[2]
 name = sys.argv[3] if len(sys.argv) > 3 else f"{prop}-r{n}"
